@@ -181,6 +181,18 @@ class ImplWorld(ImplExt):
                 return str(i)
         return str(self._register(obs, kind))
 
+    def cmd_cogk(self, ts):
+        """create_or_get_observer(Kind, tag=t) without a condition"""
+        kind, tag = ts[0], int(ts[1])
+        try:
+            obs = self.dispatcher.create_or_get_observer(KINDS[kind], tag=tag)
+        except Exception:  # pylint: disable=broad-except
+            return "raise"
+        for i, o in enumerate(self.heap):
+            if o is obs:
+                return str(i)
+        return str(self._register(obs, kind))
+
     def cmd_unsub(self, ts):
         i = int(ts[0])
         if i >= len(self.heap):
@@ -391,10 +403,36 @@ class ImplEq(ImplRules):
         self.last_pair = (sx, sy)
         return f"{fmt_bool_(sx == sy)} {fmt_bool_(sx != sy)}"
 
+    @staticmethod
+    def _use(inst):
+        """One of two independently built objects has been USED with the library before the comparison (solved by a rule, its
+        schedule rebuilt from job sequences and from its dictionary, a graph and observers built on it): use is not content."""
+        try:
+            from job_shop_lib.dispatching.rules import DispatchingRuleSolver
+            from job_shop_lib.graphs import build_disjunctive_graph, build_complete_agent_task_graph
+            from job_shop_lib.dispatching.feature_observers import FeatureObserverType, feature_observer_factory
+            sched = DispatchingRuleSolver("most_work_remaining").solve(inst)
+            if not inst.is_flexible:
+                jsl.Schedule.from_job_sequences(inst, sched.to_dict()["job_sequences"])
+                jsl.Schedule.from_dict(**_json.loads(_json.dumps(sched.to_dict())))
+            build_disjunctive_graph(inst)
+            build_complete_agent_task_graph(inst)
+            d = jsl.Dispatcher(inst, jsl.filter_dominated_operations)
+            for t in FeatureObserverType:
+                feature_observer_factory(t, dispatcher=d)
+            op = d.available_operations()[0]
+            d.dispatch(op, op.machines[0])
+            {o: 1 for job in inst.jobs for o in job}      # hashed
+            inst.durations_matrix_array, inst.machines_matrix_array, inst.operations_by_machine  # cached views filled
+        except (jsl.job_shop_lib.exceptions.ValidationError, jsl.job_shop_lib.exceptions.UninitializedAttributeError):
+            pass            # (the library refusing some use of a degenerate instance is not the comparison's business)
+
     def cmd_eqinst(self, ts):
         a, b = _split(ts)
         x = build_instance(parse_instance(a), name="a")
         y = build_instance(parse_instance(b), name="b")
+        if (len(a) + len(b)) % 3 == 0 and x.num_operations and all(len(j) for j in x.jobs):
+            self._use(x)
         self.last_pair = (x, y)
         return f"{fmt_bool_(x == y)} {fmt_bool_(x != y)}"
 
@@ -412,6 +450,8 @@ class ImplEq(ImplRules):
         ia, ha, ib, hb = _split(ts)
         x = _sched_from_hist(parse_instance(ia), [int(t) for t in ha])
         y = _sched_from_hist(parse_instance(ib), [int(t) for t in hb])
+        if (len(ha) + len(hb)) % 3 == 0 and x.instance.num_operations and all(len(j) for j in x.instance.jobs):
+            self._use(x.instance)
         self.last_pair = (x, y)
         return f"{fmt_bool_(x == y)} {fmt_bool_(x != y)}"
 
@@ -686,6 +726,15 @@ class ImplFeat(ImplViews):
             self.dispatcher.unsubscribe(self.fheap[k])
         except Exception:  # pylint: disable=broad-except
             return "raise"
+        return "ok"
+
+    def cmd_scribble(self, ts):
+        """a third party (a plotting helper, a normaliser) writes into the matrices a composite handed out, in place"""
+        self._sync_heap()
+        for o in self.fheap:
+            if isinstance(o, _fo.CompositeFeatureObserver):
+                for arr in o.features.values():
+                    arr[...] = 1 - arr
         return "ok"
 
     def cmd_funsubk(self, ts):
